@@ -6,9 +6,9 @@ From Verif Require Import Bytes Regex RegexDeriv RegexDecide.
 Record level := mkLevel { l_name : string; l_pat : re; l_ncs : list bytes }.
 
 (* a level matches a prompt when no not_contains entry is a substring and the pattern is found *)
-Definition level_top (l : level) : top :=
-  t_all (map (fun nc => TNot (t_contains nc)) (l_ncs l) ++ [t_search (l_pat l)]).
-
+Definition level_conjs (l : level) : list top :=
+  map (fun nc => TNot (t_contains nc)) (l_ncs l) ++ [t_search (l_pat l)].
+Definition level_top (l : level) : top := t_all (level_conjs l).
 Definition level_matches (l : level) (s : bytes) : bool := accepts (level_top l) s.
 
 (* _determine_current_priv: names of all matching levels, in table (dict) order *)
@@ -16,7 +16,6 @@ Definition classify (tbl : list level) (s : bytes) : list string :=
   map l_name (filter (fun l => level_matches l s) tbl).
 
 Definition in_class (cls : list string) (l : level) : bool := existsb (String.eqb (l_name l)) cls.
-
 Definition expected (tbl : list level) (cls : list string) : list string :=
   map l_name (filter (in_class cls) tbl).
 
@@ -24,26 +23,64 @@ Definition expected (tbl : list level) (cls : list string) : list string :=
 Definition grammar_top (G : re) (carves : list re) : top :=
   t_all (t_full G :: map (fun c => TNot (t_search c)) carves).
 
-Definition check_level (CL : list cset) (atoms : list atom) (fuel : nat)
-  (tbl : list level) (Gt : top) (cls : list string) : bool :=
-  forallb (fun l => if in_class cls l
-                    then decide_empty CL atoms fuel (TAnd Gt (TNot (level_top l)))
-                    else decide_empty CL atoms fuel (TAnd Gt (level_top l))) tbl.
+(* ---- facts decided by the emptiness checker ---- *)
+(* [FLevel Gm l pos]: every string of Gm is matched by level l (pos) / by no means matched (not pos)
+   [FDetect Gm r]:    the pattern r is found in every string of Gm *)
+Inductive fact := FLevel (Gm : top) (l : level) (pos : bool) | FDetect (Gm : top) (r : re).
 
-Definition check_detect (CL : list cset) (atoms : list atom) (fuel : nat)
-  (combined : re) (Gt : top) : bool :=
-  decide_empty CL atoms fuel (TAnd Gt (TNot (t_search combined))).
+Definition fact_check (CL : list cset) (atoms : list atom) (fuel : nat) (f : fact) : bool :=
+  match f with
+  | FLevel Gm l true =>
+      (* Gm inside the conjunction  <=  Gm inside every conjunct *)
+      forallb (fun c => decide_empty CL atoms fuel (TAnd Gm (TNot c))) (level_conjs l)
+  | FLevel Gm l false =>
+      (* Gm disjoint from the conjunction  <=  disjoint from one conjunct, or from all at once *)
+      existsb (fun c => decide_empty CL atoms fuel (TAnd Gm c)) (level_conjs l)
+      || decide_empty CL atoms fuel (TAnd Gm (level_top l))
+  | FDetect Gm r => decide_empty CL atoms fuel (TAnd Gm (TNot (t_search r)))
+  end.
+
+Definition fact_holds (f : fact) : Prop :=
+  match f with
+  | FLevel Gm l pos => forall s, all_bytes s = true -> accepts Gm s = true -> level_matches l s = pos
+  | FDetect Gm r => forall s, all_bytes s = true -> accepts Gm s = true -> search_b r s = true
+  end.
+
+(* structural equality of facts (to look a needed fact up in the list of decided ones) *)
+Definition level_eqb (a b : level) : bool :=
+  String.eqb (l_name a) (l_name b) && re_eqb (l_pat a) (l_pat b) && lbeq (l_ncs a) (l_ncs b).
+
+Definition fact_eqb (a b : fact) : bool :=
+  match a, b with
+  | FLevel g1 l1 p1, FLevel g2 l2 p2 => top_eqb g1 g2 && level_eqb l1 l2 && Bool.eqb p1 p2
+  | FDetect g1 r1, FDetect g2 r2 => top_eqb g1 g2 && re_eqb r1 r2
+  | _, _ => false
+  end.
 
 (* one C05 obligation: a grammar (classification form [o_G], detection form [o_D] = newline, prompt,
    trailing blank), the table and combined pattern of a constructed driver, the expected class *)
 Record obligation := mkOb {
   o_label : string; o_tbl : list level; o_combined : re; o_G : top; o_D : top; o_cls : list string }.
 
-Definition check_ob (CL : list cset) (atoms : list atom) (fuel : nat) (o : obligation) : bool :=
-  check_level CL atoms fuel (o_tbl o) (o_G o) (o_cls o) &&
-  check_detect CL atoms fuel (o_combined o) (o_D o).
+Definition ob_facts (o : obligation) : list fact :=
+  map (fun l => FLevel (o_G o) l (in_class (o_cls o) l)) (o_tbl o) ++ [FDetect (o_D o) (o_combined o)].
+
+(* an obligation is discharged when each fact it needs is among the decided facts *)
+Definition ob_covered (decided : list fact) (o : obligation) : bool :=
+  forallb (fun f => existsb (fact_eqb f) decided) (ob_facts o).
 
 Definition ob_holds (o : obligation) : Prop :=
   forall s, all_bytes s = true ->
     (accepts (o_G o) s = true -> classify (o_tbl o) s = expected (o_tbl o) (o_cls o)) /\
     (accepts (o_D o) s = true -> search_b (o_combined o) s = true).
+
+(* witness mode (diagnosis when a fact cannot be decided): a shortest string of the grammar on
+   which the fact fails, if the search finds one *)
+Definition fact_witness (atoms : list atom) (fuel : nat) (f : fact) : option bytes :=
+  match f with
+  | FLevel Gm l true =>
+      fold_right (fun c acc => match witness atoms fuel (TAnd Gm (TNot c)) with Some w => Some w | None => acc end)
+                 None (level_conjs l)
+  | FLevel Gm l false => witness atoms fuel (TAnd Gm (level_top l))
+  | FDetect Gm r => witness atoms fuel (TAnd Gm (TNot (t_search r)))
+  end.
